@@ -1,0 +1,17 @@
+//go:build verif
+// +build verif
+
+package par2
+
+// Constructors of the staged Encoder / Decoder objects with the given
+// filesystem (see verif_hooks.go). They add no behaviour.
+
+// VerifNewEncoder is NewEncoder with the given filesystem.
+func VerifNewEncoder(io VerifFileIO, delegate EncoderDelegate, basePath string, filePaths []string, sliceByteCount, parityShardCount, numGoroutines int) (*Encoder, error) {
+	return newEncoder(io, delegate, basePath, filePaths, sliceByteCount, parityShardCount, numGoroutines)
+}
+
+// VerifNewDecoder is NewDecoder with the given filesystem.
+func VerifNewDecoder(io VerifFileIO, delegate DecoderDelegate, indexFile string, numGoroutines int) (*Decoder, error) {
+	return newDecoder(io, delegate, indexFile, numGoroutines)
+}
